@@ -195,7 +195,7 @@ pub fn expected_probes(property: &str) -> Vec<&'static str> {
             "c06.outcome.both-content",
             "c06.outcome.both-len",
             "c06.outcome.both-reject-truncated",
-            "c06.outcome.both-reject-order",
+            "c06.outcome.both-reject-order-confirmed",
         ],
         "C01" => vec!["fault_fired.reader_fault", "fault_fired.medium_damage"],
         _ => vec![],
